@@ -44,6 +44,19 @@ def case_strategy(draw, tier):
     return {"model": base, "adds": adds, "prios": prios}
 
 
+@st.composite
+def scale_case(draw, tier):
+    """a configurator with MORE THAN 100 top-level children (items + option groups + rules) that is extended by a requirement
+    rule, a group of free items and - refused - a rule that takes the id of an existing group"""
+    base = draw(S.big_configurator_spec(min_top=draw(st.sampled_from([99, 100, 101, 102, 130]))))
+    L = lambda i: {"k": "leaf", "id": i, "b": [0, 1]}
+    adds = [{"k": "Imply", "id": "NEW1", "c": [L("g000_a"), {"k": "All", "id": "NEW1all", "c": [L("g001_b"), L("it000") if any(c.get("id") == "it000" for c in base["c"]) else L("g002_a")]}]},
+            {"k": "Any", "id": "G001", "c": [L("g000_a"), L("g000_b")]},       # clash with an existing group
+            {"k": "cXor", "id": "NEW2", "c": [L("n_x"), L("n_y"), L("n_z")], "default": ["n_y"]}]
+    adds = list(draw(st.permutations(adds)))
+    return {"model": base, "adds": adds, "prios": [["g000_b", 2]]}
+
+
 def rename(node, prefix):
     for c in node.get("c", []):
         if c["k"] not in ("leaf", "ref"):
@@ -158,4 +171,4 @@ def _diff(a, b, path=""):
 
 
 def parts(tier):
-    return [Part("add", strategy=lambda t: case_strategy(t), check=check, quick=(8, 120), thorough=(16, 800))]
+    return [Part("scale", strategy=lambda t: scale_case(t), check=check, quick=(1, 10), thorough=(2, 120)), Part("add", strategy=lambda t: case_strategy(t), check=check, quick=(8, 120), thorough=(16, 800))]
